@@ -5,6 +5,8 @@ package interp
 // (*os.File).Sync, sort.Slice*, sync/atomic, errors.As.
 
 import (
+	"bytes"
+	"encoding/json"
 	"fmt"
 	"go/token"
 	"go/types"
@@ -123,7 +125,7 @@ func extRemoveAll(fr *frame, args []value) value {
 		return nilErr()
 	}
 	if fs.isDirPath(i, dir, name) {
-		full := fullPath(dir, i.concName(name))
+		full := fs.canon(fullPath(dir, i.concName(name)))
 		for _, n := range fs.nodes {
 			if !n.gone && (n.dir == full || strings.HasPrefix(n.dir, full+"/")) {
 				n.gone = true
@@ -153,7 +155,7 @@ func extMkdir(fr *frame, args []value) value {
 	if fs.find(i, dir, name) != nil || fs.isDirPath(i, dir, name) {
 		return i.fsErr("mkdir (file exists)", args[0])
 	}
-	full := fullPath(dir, i.concName(name))
+	full := fs.canon(fullPath(dir, i.concName(name)))
 	fs.dirs[full] = true
 	fs.logOp("mkdir %s", full)
 	return nilErr()
@@ -335,3 +337,112 @@ func ptrKey(v value) string {
 }
 
 func fmtPtr(p *value) string { return fmt.Sprintf("%p", p) }
+
+// ---- encoding/json.Encoder for the operand kinds the Marshal model knows
+
+type jsonEnc struct {
+	w          value
+	escapeHTML bool
+	prefix     string
+	indent     string
+}
+
+func init() {
+	externals["encoding/json.NewEncoder"] = func(fr *frame, args []value) value {
+		i := fr.i
+		p := newStruct(i.namedType("encoding/json", "Encoder"))
+		i.path.extra["jsonenc:"+fmtPtr(p)] = &jsonEnc{w: args[0], escapeHTML: true}
+		return p
+	}
+	externals["(*encoding/json.Encoder).SetEscapeHTML"] = func(fr *frame, args []value) value {
+		fr.i.jsonEncOf(args[0]).escapeHTML = fr.i.truth(args[1])
+		return nil
+	}
+	externals["(*encoding/json.Encoder).SetIndent"] = func(fr *frame, args []value) value {
+		e := fr.i.jsonEncOf(args[0])
+		p, ok1 := args[1].(string)
+		in, ok2 := args[2].(string)
+		if !ok1 || !ok2 {
+			fr.i.abort("json.Encoder.SetIndent with symbolic strings")
+		}
+		e.prefix, e.indent = p, in
+		return nil
+	}
+	externals["(*encoding/json.Encoder).Encode"] = extJSONEncode
+}
+
+func (i *interpreter) jsonEncOf(v value) *jsonEnc {
+	p, _ := v.(*value)
+	e, _ := i.path.extra["jsonenc:"+fmtPtr(p)].(*jsonEnc)
+	if e == nil {
+		i.abort("json.Encoder not produced by NewEncoder")
+	}
+	return e
+}
+
+func extJSONEncode(fr *frame, args []value) value {
+	i := fr.i
+	e := i.jsonEncOf(args[0])
+	itf := args[1].(iface)
+	var data []value
+	basic := false
+	if itf.t != nil {
+		_, basic = itf.t.Underlying().(*types.Basic)
+	}
+	var gv interface{}
+	switch v := itf.v.(type) {
+	case bool, int, int8, int16, int32, int64, uint, uint8, uint16, uint32, uint64, float32, float64, string:
+		gv = v
+	default:
+		basic = false
+	}
+	if itf.t == nil {
+		basic, gv = true, nil
+	}
+	if basic {
+		var buf bytes.Buffer
+		enc := json.NewEncoder(&buf)
+		enc.SetEscapeHTML(e.escapeHTML)
+		enc.SetIndent(e.prefix, e.indent)
+		if err := enc.Encode(gv); err != nil {
+			return i.mkError(err.Error())
+		}
+		data = strBytes(buf.String())
+	} else {
+		// Marshaler-style operands (vxrt.JSONValue, json.RawMessage): the Marshal model, then the
+		// HTML escaping the encoder applies to a Marshaler's output, then a newline
+		if e.prefix != "" || e.indent != "" {
+			i.abort("json.Encoder with SetIndent on a document operand is not modelled")
+		}
+		r := extJSONMarshal(fr, []value{args[1]}).(tuple)
+		if err := r[1].(iface); err.t != nil {
+			return err
+		}
+		for _, b := range r[0].([]value) {
+			if e.escapeHTML {
+				special := false
+				switch b := b.(type) {
+				case byte:
+					special = b == '<' || b == '>' || b == '&'
+				case *Term:
+					tb := i.tb
+					special = i.decide(tb.Or(tb.Eq(b, tb.BV(8, '<')), tb.Or(tb.Eq(b, tb.BV(8, '>')), tb.Eq(b, tb.BV(8, '&')))))
+					if special {
+						i.abort("json.Encoder: HTML escaping of a symbolic byte")
+					}
+				}
+				if special {
+					data = append(data, strBytes(fmt.Sprintf("\\u%04x", b.(byte)))...)
+					continue
+				}
+			}
+			data = append(data, b)
+		}
+		data = append(data, byte('\n'))
+	}
+	r := i.writeTo(fr, e.w, data)
+	if t, ok := r.(tuple); ok && len(t) == 2 {
+		return t[1]
+	}
+	return nilErr()
+}
